@@ -288,6 +288,13 @@ class Recon:
             return ("func", "builtin:" + name)
         return S.unk("global:" + name)
 
+    def _class_level(self, c, name):
+        """A class attribute that is not a constant: an object built from constants (ENTRY = struct.Struct(">I")) is its call term."""
+        t = self._module_level(c.mod, c.class_assigns[name][0])
+        if t[0] == "unk":
+            return S.unk(f"classattr:{c.name}.{name}")
+        return t
+
     def _module_level(self, mi: ModuleInfo, v: ast.AST):
         try:
             return S.C(self.prog.fold(v, mi))
@@ -864,7 +871,7 @@ class Recon:
                         try:
                             return S.C(self.prog.fold(c.class_assigns[name][0], c.mod, c))
                         except NotConst:
-                            return S.unk(f"classattr:{c.name}.{name}")
+                            return self._class_level(c, name)
             return ("attr", base, name)
         if k == "join":
             alts = _dedup([self.attr(a, name, ctx, depth + 1) for a in base[1]])
@@ -988,7 +995,7 @@ class Recon:
                 try:
                     return S.C(self.prog.fold(c.class_assigns[name][0], c.mod, c))
                 except NotConst:
-                    return S.unk(f"classattr:{c.name}.{name}")
+                    return self._class_level(c, name)
         for c in mro:
             ga = c.methods.get("__getattr__")
             if ga is not None:
